@@ -813,7 +813,7 @@ Section Meta.
     destruct (_ || _); [|apply set_target_id].
     pose proof (update_one_id crc (set_target f name nurl true) o fs) as I. rewrite set_target_id in I.
     destruct (update_one _ o fs) as [u fs']. cbn [fst] in I.
-    destruct (u_err u); [reflexivity|]. destruct (u_updated u); exact I.
+    destruct (u_err u); [reflexivity|]. destruct (u_updated u); [exact I|]. destruct (_ =? 0); exact I.
   Qed.
 
   Lemma set_entry_other f name nurl dup en o fs j : f_id f <> j ->
@@ -825,8 +825,8 @@ Section Meta.
     assert (Nj' : f_id (set_target f name nurl true) <> j) by now rewrite set_target_id.
     pose proof (update_one_other crc (set_target f name nurl true) o fs j Nj') as I.
     destruct (update_one _ o fs) as [u fs']. cbn [snd] in I.
-    destruct (u_err u); [exact I|]. destruct (u_updated u); [exact I|]. cbn [snd].
-    now rewrite fentry_fdel_ne.
+    destruct (u_err u); [exact I|]. destruct (u_updated u); [exact I|].
+    destruct (_ =? 0); cbn [snd]; [now rewrite fentry_fdel_ne|exact I].
   Qed.
 
   Lemma update_one_err_fails l o fs : u_err (fst (update_one l o fs)) = true -> fails crc o.
@@ -859,7 +859,8 @@ Section Meta.
         * rewrite U. destruct (u_err u) eqn:Er.
           -- (* an error: everything is put back *)
              unfold restored_sum. unfold list_ok in *. cbn [f_enabled f_id f_count f_sum]. exact OK.
-          -- rewrite L. unfold list_ok. unfold f1 at 1. rewrite set_target_enabled.
+          -- rewrite (proj2 F0), N.eqb_refl.
+             rewrite L. unfold list_ok. unfold f1 at 1. rewrite set_target_enabled.
              unfold f1 at 1. rewrite set_target_id, fget_fdel_eq. exact F0.
         * rewrite U, E, L. unfold list_ok. cbn [f_enabled f_id f_count f_sum filled].
           unfold f1. rewrite set_target_enabled, set_target_id, fget_fset_eq. exists st'. auto.
@@ -1172,7 +1173,7 @@ Section Meta.
     intros Ha Hp Hu Hi Hd P. destruct (downloads_entry f u nurl st Hu Hd) as (D1 & D2 & D3).
     unfold Refresh.set_props. fold (arr allow st). rewrite Ha.
     rewrite set_in_split by auto. unfold Refresh.set_entry. rewrite D1, D2.
-    unfold Refresh.update_one. rewrite P, (D3 name).
+    unfold Refresh.update_one. rewrite P, (D3 name). change (0 =? 0) with true.
     pose proof (set_target_id f name nurl true) as TI. pose proof (set_target_enabled f name nurl true) as TE.
     assert (TU : f_url (set_target f name nurl true) = nurl) by (unfold set_target; now destruct (negb _)).
     destruct (p_sum pst =? 0) eqn:Z; cbn [u_err u_updated u_list negb andb];
@@ -1300,7 +1301,7 @@ Section Meta.
     destruct (update_one (set_target f name nurl true) o fs) as [u fs1]. cbn [fst snd] in EF.
     destruct (u_err u).
     - intros H. injection H as _ <- <-. unfold restored_sum. rewrite flist_eta. auto.
-    - destruct (u_updated u); intros H; discriminate H.
+    - destruct (u_updated u); [intros H; discriminate H|]. destruct (_ =? 0); intros H; discriminate H.
   Qed.
 
   Lemma set_in_err : forall ls u name nurl dup en o fs rs ls' fs',
